@@ -19,7 +19,23 @@ EXPLANATION = (
     "(4) read_share_data reads max(0, min(length, lease_offset - (data_offset+offset))) bytes at data_offset+offset; "
     "BucketReader.read passes its arguments through. (5) write_share_data raises DataTooLargeError unless "
     "offset+len(data) <= max_size before any byte is written, and writes the data parameter at data_offset+offset. "
-    "Undecided: RangeMap semantics, OS rename atomicity, the actual byte values.")
+    "Added after the mutation sweep: (3') an os.rmdir in abort/close that precedes bucket_writer_closed is guarded by an "
+    "empty-listdir test of the same directory or protected by a handler for OSError (a sibling share in progress must "
+    "not cut the clean-up short); the incoming directory is wiped (rm_dir(self.incomingdir), directly or through a "
+    "helper method) on every path of StorageServer.__init__/startService, so uploads cut off by a crash leave nothing "
+    "behind. (4') the read and (5') the write of share data are reached only over the edge 0 <= offset (a negative "
+    "offset would address the 12-byte header); ShareFile._length (get_length, the clip of HTTP range reads) equals "
+    "_lease_offset - 12. (6) BucketWriter.write returns normally only after self._sharefile.write_share_data, over "
+    "the truth edge of self.throw_out_all_data, or for empty data; throw_out_all_data is False at construction and "
+    "set otherwise only under the truth edge of StorageServer.no_storage, which is the discard_storage constructor "
+    "argument with default False. (7) allocate_buckets constructs a BucketWriter only over the false edge of "
+    "os.path.exists(finalhome) (a complete immutable share is never replaced by a later upload) and over the false "
+    "edge of os.path.exists(incominghome) unless ShareFile.__init__ itself refuses to create over an existing file. "
+    "Undecided: RangeMap semantics, OS rename atomicity, the actual byte values; whether the 30-minute inactivity "
+    "timer is re-armed by write (liveness of slow uploads); the return value of write/_is_finished (auto-close of "
+    "HTTP uploads); exceptions raised by os.remove/os.listdir inside abort (environment); the admission arithmetic "
+    "and the _bucket_writers bookkeeping (property C28); lease records written into the container (property C25); "
+    "who passes discard_storage=True to the StorageServer constructor (node configuration).")
 TECHNIQUE = "static analysis: CFG path monitors with normalised edge facts, who-may-call / who-may-write sweeps"
 
 IMM = "storage.immutable"
@@ -107,9 +123,10 @@ def _is_exit(n):
 def stmt_node_of(fn, sub):
     """The CFG node whose statement contains the AST node `sub` (a store target, a call)."""
     for n in fn.cfg().nodes:
-        if n.ast is not None and n.kind not in ("entry", "exit", "raise") and any(x is sub for x in ast.walk(n.ast)):
+        if n.kind == "stmt" and isinstance(n.ast, (ast.Assign, ast.AugAssign, ast.AnnAssign, ast.Expr, ast.Delete)) \
+                and any(x is sub for x in ast.walk(n.ast)):
             return n
-    raise AnalysisError("AST node not found in the CFG of %s" % fn.qual)
+    raise AnalysisError("AST node not found in a simple statement of %s" % fn.qual)
 
 
 def param_default(fn, name):
@@ -620,7 +637,7 @@ def run(ctx: Context):
     # ---------------------------------------------------------------- 4. clipped read
     with ctx.rule("C22.4", "R5", "read_share_data reads max(0, min(length, lease_offset - (data_offset+offset))) bytes "
                   "at data_offset+offset, only for offset >= 0; BucketReader.read passes (offset, length) through; "
-                  "_length is the size of the data region", expected=4) as r:
+                  "_length is the size of the data region", expected=5) as r:
         rd = idx.func(SF + ".read_share_data")
         rcfg = rd.cfg()
         rn_ = FlowNorm(rd)
@@ -780,3 +797,128 @@ def run(ctx: Context):
             ms = kwarg(c, "max_size") or arg(c, 1)
             r.require(isinstance(ms, ast.Name) and ms.id == "max_size", init, init.loc(c),
                       "the share container is created with max_size=%s" % src(init, ms))
+
+    # ---------------------------------------------------------------- 6. bytes are dropped only in discard mode
+    with ctx.rule("C22.6", "R1", "BucketWriter.write returns normally only after write_share_data, except in discard mode; "
+                  "discard mode is switched on only under StorageServer.no_storage (= discard_storage, default False)",
+                  expected=4) as r:
+        fn = idx.func(BW + ".write")
+        cfg = fn.cfg()
+        fnorm = FlowNorm(fn)
+
+        def stored(n):
+            return any(call_name(c) == "self._sharefile.write_share_data" for c in node_calls(n))
+
+        ps6 = first_positional_params(fn)
+        if len(ps6) < 2:
+            raise AnchorVanished("BucketWriter.write(offset, data) signature changed")
+        d6 = ps6[1]
+        len6 = norm_src("len(%s)" % d6)
+
+        def discard_edge(n, lab):
+            # discard mode, or nothing to store (empty data)
+            return fnorm.edge_fact(n, lab) in (("truth", "self.throw_out_all_data", None), ("false", d6, None),
+                                               ("false", len6, None), ("==", "0", len6), ("<=", len6, "0"))
+        if not cfg.find(stored):
+            raise AnchorVanished("BucketWriter.write no longer calls self._sharefile.write_share_data")
+        r.site(fn, None, "normal exits of write")
+        r.count(len(cfg.nodes))
+        for (n, w) in find_path_avoiding(cfg, _is_exit, gate_node=stored, gate_edge=discard_edge, skip_exc_edges=True):
+            r.violation(fn, fn.loc(), "write() can return normally without storing the bytes although the writer is not "
+                        "in discard mode (path: %s) - the share later reads back without them" % w.brief(), w)
+        # who switches discard mode on
+        for v in idx.cls(BW).attrs.get("throw_out_all_data", []):
+            r.require(is_const(v, False), idx.func(BW + ".__init__"), "class body",
+                      "BucketWriter.throw_out_all_data defaults to something other than False at class level")
+        alloc = idx.func(SS + ".allocate_buckets")
+        n_false = 0
+        for (f, target) in cg.attr_stores("throw_out_all_data"):
+            n = stmt_node_of(f, target)
+            val = n.ast.value if isinstance(n.ast, (ast.Assign, ast.AnnAssign)) else None
+            if isinstance(n.ast, ast.Assign) and isinstance(n.ast.targets[0], (ast.Tuple, ast.List)):
+                val = assign_value(n, attr_path(target))
+            r.site(f, n.ast, "throw_out_all_data store")
+            if is_const(val, False):
+                n_false += 1
+                continue
+            ok = f.cls is not None and f.cls.name == "StorageServer"
+            if ok:
+                fno = FlowNorm(f)
+                ok = not find_path_avoiding(f.cfg(), lambda x, _n=n: x is _n, skip_exc_edges=True,
+                                            gate_edge=lambda x, lab, _fno=fno: _fno.edge_fact(x, lab) == ("truth", "self.no_storage", None))
+            r.require(ok, f, f.loc(n.ast), "%s puts a bucket writer into discard mode (%s) outside the `if self.no_storage` "
+                      "branch of the storage server: uploaded bytes are silently thrown away" % (short(f), src(f, n.ast)))
+        if n_false == 0:
+            raise AnchorVanished("BucketWriter.__init__ no longer initialises throw_out_all_data to False")
+        # no_storage is the discard_storage constructor argument, off by default
+        sinit = idx.func(SS + ".__init__")
+        n_ns = 0
+        for (f, target) in cg.attr_stores("no_storage"):
+            if f.cls is None or f.cls.name != "StorageServer":
+                continue
+            n_ns += 1
+            n = stmt_node_of(f, target)
+            r.site(f, n.ast, "no_storage store")
+            val = assign_value(n, "self.no_storage")
+            if is_const(val, False):
+                continue
+            rv = FlowNorm(f).resolve(n, val) if val is not None else None
+            ok = f is sinit and isinstance(rv, ast.Name) and rv.id in f.params and is_const(param_default(f, rv.id), False)
+            r.require(ok, f, f.loc(n.ast), "StorageServer.no_storage is set by %s; it must be the constructor's "
+                      "discard_storage argument whose default is False" % src(f, n.ast))
+        if n_ns == 0:
+            raise AnchorVanished("StorageServer no longer stores self.no_storage")
+
+    # ---------------------------------------------------------------- 7. no second upload of the same share
+    with ctx.rule("C22.7", "R4", "a BucketWriter is created only for a share that is neither complete (finalhome exists) "
+                  "nor in progress (incominghome exists, or ShareFile refuses to create over an existing file)",
+                  expected=1) as r:
+        alloc = idx.func(SS + ".allocate_buckets")
+        acfg = alloc.cfg()
+        anorm = FlowNorm(alloc)
+        # the container's own refusal: open(self.home, 'w..') only after `not os.path.exists(self.home)`
+        sfi = idx.func(SF + ".__init__")
+        sfn = FlowNorm(sfi)
+        creates = []
+        for n in sfi.cfg().nodes:
+            for c in calls_at(n, "open"):
+                mode = arg(c, 1, "mode")
+                if isinstance(mode, ast.Constant) and isinstance(mode.value, str) and mode.value[:1] in ("w", "a", "x"):
+                    creates.append((n, c))
+        sf_guard = bool(creates)
+        for (n, c) in creates:
+            mode = arg(c, 1, "mode").value
+            if mode[:1] == "x":
+                continue
+            if find_path_avoiding(sfi.cfg(), lambda x, _n=n: x is _n, skip_exc_edges=True,
+                                  gate_edge=lambda x, lab: sfn.edge_fact(x, lab) == ("false", "os.path.exists(self.home)", None)):
+                sf_guard = False
+        n_bw = 0
+        for cs in real_sites(cg.calls_named("BucketWriter")):
+            if cs.fn is not alloc:
+                continue        # reported by C22.2
+            n_bw += 1
+            r.site(alloc, cs.call, "BucketWriter(...)")
+            node = node_of(alloc, cs.call)
+            inc = arg(cs.call, 1, "incominghome")
+            fin = arg(cs.call, 2, "finalhome")
+            if inc is None or fin is None:
+                raise AnalysisError("BucketWriter(...) call shape changed")
+
+            def unguarded(e):
+                wants = {"os.path.%s(%s)" % (fname, anorm.norm(node, e)) for fname in ("exists", "lexists", "isfile")}
+                return find_path_avoiding(acfg, lambda x, _n=node: x is _n, skip_exc_edges=True,
+                                          gate_edge=lambda x, lab: (lambda f_: bool(f_) and f_[0] == "false" and f_[1] in wants)(
+                                              anorm.edge_fact(x, lab)))
+            r.count(len(acfg.nodes))
+            for (t, w) in unguarded(fin):
+                r.violation(alloc, cs.loc, "a new upload is started although the share may already exist at %s: closing it "
+                            "renames over the complete immutable share and changes the bytes readers get (path: %s)"
+                            % (src(alloc, fin), w.brief()), w)
+            if not sf_guard:
+                for (t, w) in unguarded(inc):
+                    r.violation(alloc, cs.loc, "a second upload of a share that is still in progress at %s is accepted and "
+                                "ShareFile(create=True) does not refuse an existing file: the first upload's bytes are "
+                                "truncated away" % src(alloc, inc), w)
+        if n_bw == 0:
+            raise AnchorVanished("allocate_buckets no longer constructs a BucketWriter")
